@@ -99,6 +99,7 @@ OpsC01 ==   \* code single use; replay after refreshes; hybrid codes; other gran
   (IF CanAuthz THEN {Authz(c, rt, Full, Full, <<>>, "sent", "none") : c \in {"A", "B"}, rt \in {"code", "code_token", "code_idt_token"}}
                     \cup {Authz("A", "code", <<"a">>, <<"a">>, <<>>, "sent", "none")}     \* no offline scope: a refresh token all the same when none is required
                     \cup {Authz("A", "code", <<"a">>, <<>>, <<>>, "sent", "none")}        \* nothing granted at all: still a grant, with a family of its own
+                    \cup {Authz("P", "code", Full, Full, <<>>, "sent", "none")}           \* a public client's code: replayed by somebody nobody authenticates
    ELSE {})
   \cup (IF CanMint THEN {Redeem(Owner(k), "ok", k, "same", "none", <<>>, <<>>) : k \in Codes} ELSE {})
   \cup UNION {{Redeem(c, a, k, rd, "none", <<>>, <<>>) : c \in {Owner(k), Other(Owner(k))}, a \in {"ok", "bad"}, rd \in {"same", "absent"}} :
@@ -216,6 +217,7 @@ OpsC08 ==   \* revocation: every token, every hint, owner / foreign / unauthenti
   \cup {Revoke("P", "ok", "rt", j, h) : j \in RTs, h \in {"rt", "none"}}      \* a foreign PUBLIC client (identified, no secret)
   \cup {Revoke("P", "ok", "at", i, h) : i \in ATs, h \in {"at", "none"}}
   \cup {Revoke("A", "ok", "unk", 0, h) : h \in {"rt", "none"}}
+  \cup (IF CanMint /\ ~JTIKnown(st.S, "jb-1") THEN {[op |-> "jbearer", val |-> "jb-1"]} ELSE {})     \* a token that belongs to no client: nobody may revoke it
   \cup TickOps
 
 OpsC08b ==  \* revocation of tokens of every age (expired ones included) by owner and stranger, one grant, short lifetimes
@@ -305,7 +307,7 @@ InvState == StateInvariant(st)
 InvStep == stepok
 TypeOK ==
   /\ st.now \in 0..(MaxNow + 1)
-  /\ \A i \in DOMAIN st.S.at : st.S.at[i].client \in Clients /\ st.S.at[i].scopes \subseteq AllScopes
+  /\ \A i \in DOMAIN st.S.at : st.S.at[i].client \in Clients \cup {""} /\ st.S.at[i].scopes \subseteq AllScopes
   /\ \A j \in DOMAIN st.S.rt : st.S.rt[j].client \in Clients /\ st.S.rt[j].scopes \subseteq AllScopes
   /\ DOMAIN st.S.at = 1..Count(st.S.at) /\ DOMAIN st.S.rt = 1..Count(st.S.rt) /\ DOMAIN st.S.code = 1..Count(st.S.code)
 
